@@ -120,6 +120,17 @@ def run(ctx):
             cases.append({"src": "\n".join([nth, where, "replace all %s with %s" % (body, " ".join(show3(i) for i in its))]), "texts": ["ab cd ab", "ab ab ab", "a a\na", "abab", "x"]})
             cases.append({"src": "\n".join([nth, where, "find all %s" % body]), "texts": ["ab cd ab", "ab ab ab", "a a\na", "abab", "x"]})
             meta.append(its)
+    cmpn = "set cmpn to transform if matchNumber < 3 then return 'lo' end if matchNumber >= 10 then return 'big' end return 'mid' end"
+    incn = "set incn to transform return '' + (matchNumber + 1) + '/' + (matchNumber * 2) + '/' + (matchLength + matchNumber) end"
+    ordn = "set ordn to transform if matchNumber > 9 then return 'B' end if matchNumber <= 2 then return 'A' end return '-' end"
+    for body in ("'a'", "letter", "(letter) = w"):
+        for its in ([("transform", "cmpn")], [("transform", "incn"), ("str", ";")], [("builtin", "matchNumber"), ("transform", "ordn"), ("transform", "cmpn")]):
+            def show5(it):
+                return genprog.q(it[1]) if it[0] == "str" else it[1]
+            nt_texts = ["a a a a a a a a a a a a", "aaaaaaaaaaa", "a b", "a" * 101]
+            cases.append({"src": "\n".join([cmpn, incn, ordn, "replace all %s with %s" % (body, " ".join(show5(i) for i in its))]), "texts": nt_texts})
+            cases.append({"src": "\n".join([cmpn, incn, ordn, "find all %s" % body]), "texts": nt_texts})
+            meta.append(its)
     # items and captured texts that look like formatting directives: a replacement is the items' texts one after the other, never a format applied to them
     for body in ("(digit) = n", "(at least 1 (not ' ')) = n", "'%' (any = n)"):
         for its in ([("str", "100%"), ("cap", "n")], [("cap", "n"), ("str", "%s"), ("cap", "n"), ("str", "%d"), ("builtin", "value")], [("str", "%"), ("str", "%%"), ("builtin", "matchNumber"), ("str", "%!v")],
